@@ -33,7 +33,7 @@ THEOREMS = [NPM + 'C13_npm_escape', NPM + 'C13_npm_roundtrip_partial', NPM + 'C1
             POM + 'C13_pom_props_total', POM + 'C13_pom_props_fuel_adequate', POM + 'C13_pom_props_sound', POM + 'C13_pom_props_repeated_name_fixed',
             POM + 'C13_pom_props_fixed_witnesses', POM + 'C13_pom_identity', POM + 'C13_pom_invalid_name_error',
             POM + 'C13_pom_literal_roundtrip_partial', POM + 'C13_pom_no_silent_success_partial',
-            POM + 'C13_pom_class_witnesses', POM + 'C13_pom_other_profile_witness', POM + 'C13_pom_fixed_witnesses',
+            POM + 'C13_pom_class_witnesses', POM + 'C13_pom_ignores_version_from_witness', POM + 'C13_pom_other_profile_witness', POM + 'C13_pom_fixed_witnesses',
             'Scalibr.PomTok.C13_pom_tokens_identity_partial', 'Scalibr.PomTok.C13_pom_tokens_fuel_adequate', 'Scalibr.PomTok.C13_pom_tokens_comment_witness']
 
 
@@ -69,6 +69,7 @@ def run(ctx):
                 'thorough adds every section combination x equal/different versions x 8 names, plain and aliased. '
                 'pp case = (s1, s2) from literal/placeholder pools; thorough adds 155 templates x every s2 of length <=5 over {1 . - x}. '
                 'ws case = one dependency / parent / properties element (comments, CDATA, entities, attributes, white space, PIs inside or beside the addressed child) through the real writeString with the element\'s own version, a new one, or property values. '
+                'pch case = multi-module layout with 1-3 local parents, intermediate poms that inherit groupId / version, default and explicit relativePath, literal-version entries at every level, updates addressed to each, written to the same path or to another directory (parents must appear next to the output); '
                 'pom case = abstract pom (1-4 dependencies, every third with a second declaration of one groupId:artifactId under another key (test-jar / classifier) and another version, dependencyManagement, 0-2 profiles, properties used as whole/prefix/suffix/two placeholders, ${project.version}) rendered with '
                 'comments / one-line forms / namespaces, x update subsets drawn from the real Read (all subsets when <=4 in thorough) + the no-update case (plain, comment or CDATA in <version>). '
                 'non-trivial = at least one update (npm, pom) or s1 with a placeholder and a non-"no" answer (pp); distinct = distinct case lines')
@@ -88,6 +89,8 @@ def run(ctx):
             return '247b' in t[1] and fi.get('r') != 'no'
         if t[0] == 'ws':
             return t[2] != '-'
+        if t[0] == 'pch':
+            return t[2] != '-'
         return t[4] != '-'
 
     def oracle(case, fi, fm):
@@ -103,6 +106,14 @@ def run(ctx):
                     return 'package.json: re-read requirements differ from substitute(original, updates)'
                 if fi.get('bytes') != '1':
                     return 'package.json: bytes outside the addressed values changed'
+        elif op == 'pch':
+            if r.startswith('ok-missing') or r == 'ok-rereaderr':
+                return 'pom.xml Write, local parent chain: ' + r + ' (every file of the chain must be written next to the output and read back)'
+            if r == 'ok':
+                if fi.get('chain') != fm.get('spec'):
+                    return 'pom.xml, local parent chain: re-read requirements of the child (parents merged) differ from substitute(original, updates)'
+                if fi.get('same') != '1':
+                    return 'pom.xml, local parent chain: a pom of the chain that no update addresses is not byte-identical'
         elif op == 'ws':
             t = case.split(' ')
             if fi.get('out') in ('err', 'unparseable'):
@@ -130,6 +141,8 @@ def run(ctx):
                 if case.split(' ')[4] == '-':
                     if fi.get('tok') != '1':
                         return 'pom.xml: no updates, but the token sequence (elements, attributes, text, comments) changed'
+                    if op == 'pom' and fi.get('id') != '1':
+                        return 'pom.xml: no updates and nothing special inside <version>, but the bytes written differ from the bytes read'
                 elif fi.get('rest') != '1':
                     return 'pom.xml: bytes outside <version> / property values changed'
         return None
@@ -138,6 +151,8 @@ def run(ctx):
         if not agree(fi, fm):
             return None          # a model/implementation difference is never excused by a class
         op = case.split(' ')[0]
+        if op == 'pch':
+            return None
         if op == 'pomc' and case.split(' ')[4] == '-':
             return 'C13/pom-version-comment'
         if op == 'ws':
@@ -153,6 +168,8 @@ def run(ctx):
             return 'npm r=%s wf=%s' % (r, fm.get('wf'))
         if op == 'pp':
             return 'pp r=%s cons=%s' % (r, fm.get('cons'))
+        if op == 'pch':
+            return 'pch r=%s updates=%s' % (r, 'none' if case.split(' ')[2] == '-' else 'some')
         if op == 'ws':
             return 'ws %s simple=%s same=%s' % (case.split(' ')[1], fm.get('simple'), fm.get('same'))
         return '%s r=%s updates=%s cls=%s' % (op, r, 'none' if case.split(' ')[4] == '-' else 'some', fm.get('cls'))
